@@ -27,6 +27,6 @@ def keep(c):
 def finding_key(c, r):
     return None
 
-LEVEL_TEXT = "placeholder"
-LEVEL_NOTE = "placeholder"
+LEVEL_TEXT = "Theorems (Props/C06.v): with NLP on every command returned with NLP off is still returned (<= 10 distinct content words, default cap, no cut), each of the first four terms survives term selection at any length, the enhanced term list begins with the user's own terms in order, selection never invents a term - for ANY NLP analysis. Tied to the code by the engine correspondence (NLP on/off pairs at a limit above the database size compared with the model bit for bit)."
+LEVEL_NOTE = 'Partial: ProcessQuery / GetEnhancedKeywords (keyword extraction, no duplicates, same analysis twice) are oracles of the model; their output is fed to the model per case. Trusted: Coq kernel; oracles; harness.'
 TECHNIQUE = "Coq proof over the engine model + differential correspondence (vm_compute, bit-exact scores)"
